@@ -1,10 +1,10 @@
 package rules
 
 import (
-	"os"
 	"go/ast"
 	"go/token"
 	"go/types"
+	"os"
 	"sort"
 	"strings"
 
@@ -16,53 +16,53 @@ import (
 var varIdxTable = map[string]string{
 	// --- accessor primitives: the obligation is carried by their call sites, which this rule lists one by one
 	"(bytes.Bytes).Byte:b.data[Int(i)]": "primitive accessor; every Byte(e) call site with a non-constant e is its own obligation in this rule",
-	"(bytes.Bytes).Sub:b.data[l:h]":      "primitive accessor; every Sub(a, b) call site is its own obligation",
-	"(bytes.Bytes).SubHigh:b.data[:i]":   "primitive accessor; every SubHigh(e) call site is its own obligation",
-	"(bytes.Bytes).SubLow:b.data[i:]":    "primitive accessor; every SubLow(e) call site is its own obligation",
+	"(bytes.Bytes).Sub:b.data[l:h]":     "primitive accessor; every Sub(a, b) call site is its own obligation",
+	"(bytes.Bytes).SubHigh:b.data[:i]":  "primitive accessor; every SubHigh(e) call site is its own obligation",
+	"(bytes.Bytes).SubLow:b.data[i:]":   "primitive accessor; every SubLow(e) call site is its own obligation",
 	// --- bytes helpers
-	"(bytes.Bytes).TrimSpaces:b.data[right]":          "right starts at Len()-1 and only decreases while right > 0; reached only when left < Len() (some non-blank byte exists), so Len() >= 1",
-	"(bytes.Bytes).TrimSpaces:b.data[left:right + 1]": "left < Len() (checked just above) and left <= right because data[left] is non-blank and the right scan stops at a non-blank byte or at 0",
+	"(bytes.Bytes).TrimSpaces:b.data[right]":                 "right starts at Len()-1 and only decreases while right > 0; reached only when left < Len() (some non-blank byte exists), so Len() >= 1",
+	"(bytes.Bytes).TrimSpaces:b.data[left:right + 1]":        "left < Len() (checked just above) and left <= right because data[left] is non-blank and the right scan stops at a non-blank byte or at 0",
 	"(bytes.Bytes).TrimSquareBrackets:b.data[lastCharIndex]": "lastCharIndex = len-1 under lastCharIndex > 0 in the same && chain",
-	"bytes.unquoteBytes:s[0:r]": "copy of encoding/json.unquoteBytes: r is the scan position of the preceding loop, r <= len(s)",
-	"bytes.unquoteBytes:b[0:w]": "copy of encoding/json.unquoteBytes: w <= len(b) by construction (b has len(s)+2*utf8.UTFMax bytes, every step writes at most UTFMax bytes per input byte)",
-	"bytes.unquoteBytes:b[w:]":  "see b[0:w]",
-	"bytes.unquoteBytes:b[w]":   "see b[0:w]",
+	"bytes.unquoteBytes:s[0:r]":                              "copy of encoding/json.unquoteBytes: r is the scan position of the preceding loop, r <= len(s)",
+	"bytes.unquoteBytes:b[0:w]":                              "copy of encoding/json.unquoteBytes: w <= len(b) by construction (b has len(s)+2*utf8.UTFMax bytes, every step writes at most UTFMax bytes per input byte)",
+	"bytes.unquoteBytes:b[w:]":                               "see b[0:w]",
+	"bytes.unquoteBytes:b[w]":                                "see b[0:w]",
 	// --- decimal numbers: invariant 0 <= exp <= len(nat), established by trimTrailingZerosInTheFractionalPart's own check and kept by its loop (one byte and one exp per step)
-	"(*json.Number).trimTrailingZerosInTheFractionalPart:n.nat.Byte(i)":                  "i = Len()-1 inside a loop that runs only while exp != 0, and exp <= Len() was checked at the top and both shrink together, so Len() >= 1",
+	"(*json.Number).trimTrailingZerosInTheFractionalPart:n.nat.Byte(i)":                 "i = Len()-1 inside a loop that runs only while exp != 0, and exp <= Len() was checked at the top and both shrink together, so Len() >= 1",
 	"(*json.Number).trimTrailingZerosInTheFractionalPart:n.nat.SubHigh(bytes.Index(i))": "same i = Len()-1 >= 0",
-	"(json.Number).int:n.nat.SubHigh(bytes.Index(n.nat.Len() - n.exp))":                  "0 <= exp <= Len() for every Number built by NewNumber (and the zero Number): both trims check/keep it; C13.norm shows every Number passes through them",
-	"(json.Number).fra:n.nat.SubLow(bytes.Index(n.nat.Len() - n.exp))":                   "see int()",
-	"(json.Number).cmpInt:y.Byte(i)":                                                     "loop runs for i < xLen and is reached only when xLen == yLen (the unequal-length case returned above)",
-	"(*json.scanner).setExp:value.SubLow(s.expBegin)":                                    "expBegin is the index of the byte after `e`/`E` recorded by the state machine while scanning this very value, so expBegin <= len(value)",
+	"(json.Number).int:n.nat.SubHigh(bytes.Index(n.nat.Len() - n.exp))":                 "0 <= exp <= Len() for every Number built by NewNumber (and the zero Number): both trims check/keep it; C13.norm shows every Number passes through them",
+	"(json.Number).fra:n.nat.SubLow(bytes.Index(n.nat.Len() - n.exp))":                  "see int()",
+	"(json.Number).cmpInt:y.Byte(i)":                                                    "loop runs for i < xLen and is reached only when xLen == yLen (the unequal-length case returned above)",
+	"(*json.scanner).setExp:value.SubLow(s.expBegin)":                                   "expBegin is the index of the byte after `e`/`E` recorded by the state machine while scanning this very value, so expBegin <= len(value)",
 	// --- diagnostics rendering
-	"(kit.JSchemaError).lineBeginning:content.Byte(i)":  "guarded at entry by LenIndex() <= i => return; afterwards i only decreases and the loop leaves at i == 0 before decrementing",
-	"(kit.JSchemaError).lineEnd:content.Byte(i)":        "loop condition i < e.length with e.length = content length (preparation)",
-	"(kit.JSchemaError).lineEnd:content.Byte(i - 1)":    "under i > 0, and i <= length after the loop",
-	"(*kit.JSchemaError).SourceSubString:content.Sub(begin, end)":        "begin = lineBeginning() <= index <= lineEnd()+1 and end <= length; for an index outside the text both are 0",
+	"(kit.JSchemaError).lineBeginning:content.Byte(i)":                     "guarded at entry by LenIndex() <= i => return; afterwards i only decreases and the loop leaves at i == 0 before decrementing",
+	"(kit.JSchemaError).lineEnd:content.Byte(i)":                           "loop condition i < e.length with e.length = content length (preparation)",
+	"(kit.JSchemaError).lineEnd:content.Byte(i - 1)":                       "under i > 0, and i <= length after the loop",
+	"(*kit.JSchemaError).SourceSubString:content.Sub(begin, end)":          "begin = lineBeginning() <= index <= lineEnd()+1 and end <= length; for an index outside the text both are 0",
 	"(*kit.JSchemaError).pointerToTheErrorCharacter:content.SubLow(begin)": "begin = lineBeginning() <= length",
 	// --- scanners
-	"(*internal/ds.Stack[T]).Peek:s.vals[l - 1]":      "l = Len() and l == 0 panics (with an error value) just above",
-	"(*internal/ds.Stack[T]).Get:s.vals[i]":          "i < 0 || i > Len()-1 panics (with an error value) just above",
-	"(*internal/ds.Stack[T]).Pop:s.vals[:s.Len() - 1]": "Peek() on the line above panics when the stack is empty",
-	"(*formats/json.scanner).Length:s.data.Byte(length - 1)":          "under length != 0; length <= dataSize because formats/json closes at most one lexeme at end of input (a literal, scalar pair: End = index-2 = dataSize-1) and EndTop lies on a real byte",
-	"(*notations/jschema/scanner.Scanner).Length:s.data.Byte(length - 1)": "under length > 0; length <= dataSize: the schema scanner closes at most two lexemes at end of input in a successful run (inline annotation text, then the inline annotation: scalar pair, End = index-2 = dataSize), which the `== dataSize` correction handles; any further open lexeme makes Next() raise ErrUnexpectedEOF instead",
-	"(*formats/json.scanner).newJSchemaErrorAtCharacter:s.data.SubLow(s.index - 1)":               "called from state functions only, which run after index++ under index < dataSize (loop shape checked by C16.positioned)",
-	"(*notations/jschema/scanner.Scanner).newJSchemaErrorAtCharacter:s.data.SubLow(s.index - 1)":   "see formats/json",
-	"(*rules/enum.scanner).newJSchemaErrorAtCharacter:s.data.SubLow(s.index - 1)":                  "see formats/json",
-	"(*notations/jschema/scanner.Scanner).processingFoundLexemeClosingTag:s.data.Byte(i - 1)": "only for MixedValueEnd, whose opener MixedValueBegin was pushed at an earlier byte, so i = index-1 >= 1; at end of input i-1 <= dataSize-1 because the shortcut is the first lexeme closed there",
-	"(*rules/enum.scanner).processingFoundLexemeClosingTag:s.data.Byte(i - 1)":                "see the schema scanner",
-	"(*rules/enum.scanner).validateValue:s.file.Content().Sub(begin, s.index - 1)":            "begin is the Begin() of the literal on top of the stack (an earlier index), index-1 <= dataSize; called from literal-ending state functions",
-	"(*notations/regex.RSchema).doCompile:content.Byte(idx)":   "idx = content.Len()-1 after the empty-content guard at the top of doCompile",
-	"(*notations/regex.RSchema).doCompile:content.Sub(1, i + 1)": "i is the range index of the closing delimiter found in content[1:], so i+1 <= Len()-1",
-	"(lexeme.LexEvent).Value:lex.file.Content().Sub(lex.begin, lex.end + 1)": "lexeme positions are produced by the scanners from index-1 / index-2 of bytes they read; Value() is taken from closing lexemes of literals, keys, shortcuts and annotation texts, whose end lies inside the content (lexeme spans themselves are not decided statically; C12 names this limit)",
+	"(*internal/ds.Stack[T]).Peek:s.vals[l - 1]":                                                 "l = Len() and l == 0 panics (with an error value) just above",
+	"(*internal/ds.Stack[T]).Get:s.vals[i]":                                                      "i < 0 || i > Len()-1 panics (with an error value) just above",
+	"(*internal/ds.Stack[T]).Pop:s.vals[:s.Len() - 1]":                                           "Peek() on the line above panics when the stack is empty",
+	"(*formats/json.scanner).Length:s.data.Byte(length - 1)":                                     "under length != 0; length <= dataSize because formats/json closes at most one lexeme at end of input (a literal, scalar pair: End = index-2 = dataSize-1) and EndTop lies on a real byte",
+	"(*notations/jschema/scanner.Scanner).Length:s.data.Byte(length - 1)":                        "under length > 0; length <= dataSize: the schema scanner closes at most two lexemes at end of input in a successful run (inline annotation text, then the inline annotation: scalar pair, End = index-2 = dataSize), which the `== dataSize` correction handles; any further open lexeme makes Next() raise ErrUnexpectedEOF instead",
+	"(*formats/json.scanner).newJSchemaErrorAtCharacter:s.data.SubLow(s.index - 1)":              "called from state functions only, which run after index++ under index < dataSize (loop shape checked by C16.positioned)",
+	"(*notations/jschema/scanner.Scanner).newJSchemaErrorAtCharacter:s.data.SubLow(s.index - 1)": "see formats/json",
+	"(*rules/enum.scanner).newJSchemaErrorAtCharacter:s.data.SubLow(s.index - 1)":                "see formats/json",
+	"(*notations/jschema/scanner.Scanner).processingFoundLexemeClosingTag:s.data.Byte(i - 1)":    "only for MixedValueEnd, whose opener MixedValueBegin was pushed at an earlier byte, so i = index-1 >= 1; at end of input i-1 <= dataSize-1 because the shortcut is the first lexeme closed there",
+	"(*rules/enum.scanner).processingFoundLexemeClosingTag:s.data.Byte(i - 1)":                   "see the schema scanner",
+	"(*rules/enum.scanner).validateValue:s.file.Content().Sub(begin, s.index - 1)":               "begin is the Begin() of the literal on top of the stack (an earlier index), index-1 <= dataSize; called from literal-ending state functions",
+	"(*notations/regex.RSchema).doCompile:content.Byte(idx)":                                     "idx = content.Len()-1 after the empty-content guard at the top of doCompile",
+	"(*notations/regex.RSchema).doCompile:content.Sub(1, i + 1)":                                 "i is the range index of the closing delimiter found in content[1:], so i+1 <= Len()-1",
+	"(lexeme.LexEvent).Value:lex.file.Content().Sub(lex.begin, lex.end + 1)":                     "lexeme positions are produced by the scanners from index-1 / index-2 of bytes they read; Value() is taken from closing lexemes of literals, keys, shortcuts and annotation texts, whose end lies inside the content (lexeme spans themselves are not decided statically; C12 names this limit)",
 	// --- model containers
-	"(*notations/jschema/ischema.ObjectNode).Child:n.children[i.Index]":               "i comes from n.keys.Get(); keys and children are appended together in AddChild (same length, Index = position at insertion)",
+	"(*notations/jschema/ischema.ObjectNode).Child:n.children[i.Index]":                "i comes from n.keys.Get(); keys and children are appended together in AddChild (same length, Index = position at insertion)",
 	"(*notations/jschema/ischema.ObjectNode).collectASTProperties:n.children[v.Index]": "v ranges over n.keys.Data, appended together with children in AddChild",
-	"(notations/jschema/ischema.ObjectNodeKeys).Get:k.Data[i]":                        "i is a value of k.index, which Set fills with len(Data) at the moment of appending",
-	"(notations/jschema/ischema.ArrayNode).Child:n.children[i]":                       "exported accessor by position; its callers inside the module pass indexes below Len() (validator walks children by position)",
-	"(*notations/jschema/ischema/constraint.Enum).SetComment:c.items[idx]":            "panics by contract on a wrong index (pinned by TestEnum_SetComment/negative); every call site is checked by this rule to sit under `idx < Len()` (fix c4a57a8)",
-	"(*notations/jschema/checker.recursionChecker).leave:c.path[:len(c.path) - 1]":    "under len(c.path) > 0 in the enclosing if",
-	"(openapi.ObjectInfo).PropertiesInfos:result[i]":                                  "result := make(.., len(props)) and i ranges over props",
+	"(notations/jschema/ischema.ObjectNodeKeys).Get:k.Data[i]":                         "i is a value of k.index, which Set fills with len(Data) at the moment of appending",
+	"(notations/jschema/ischema.ArrayNode).Child:n.children[i]":                        "exported accessor by position; its callers inside the module pass indexes below Len() (validator walks children by position)",
+	"(*notations/jschema/ischema/constraint.Enum).SetComment:c.items[idx]":             "panics by contract on a wrong index (pinned by TestEnum_SetComment/negative); every call site is checked by this rule to sit under `idx < Len()` (fix c4a57a8)",
+	"(*notations/jschema/checker.recursionChecker).leave:c.path[:len(c.path) - 1]":     "under len(c.path) > 0 in the enclosing if",
+	"(openapi.ObjectInfo).PropertiesInfos:result[i]":                                   "result := make(.., len(props)) and i ranges over props",
 	// --- copied UUID parser (google/uuid)
 	"notations/jschema/ischema/constraint.parseBytes:b[x]":     "x ranges over the constant offsets {0,2,4,6,9,11,14,16,19,21,24,26,28,30,32,34} and len(b) == 36 on this path",
 	"notations/jschema/ischema/constraint.parseBytes:b[x + 1]": "see b[x]",
@@ -228,7 +228,7 @@ func c02varidxAs(c *core.Ctx, R string) {
 			site.status, site.why = "bounded", strings.Join(whys, "; ")
 		} else if !reachable(pk, fd) {
 			site.status, site.why = "unreachable", "exported helper that no public operation of the API packages reaches (call graph from the C02 entry points)"
-		} else if r, ok := varIdxTable[site.key]; ok && r != "" {
+		} else if r, ok := tableGet(varIdxTable, site.key); ok && r != "" {
 			site.status, site.why = "table", r
 		} else {
 			site.status, site.why = "open", strings.Join(whys, "; ")
